@@ -74,6 +74,26 @@ func (c *PDerivedCircuit) Define(api frontend.API) error {
 	return nil
 }
 
+// PConstCircuit feeds COMPILE-TIME CONSTANTS to the gadgets (as a circuit computing empty-subtree roots from the
+// literal empty leaf would). K1..K3 are circuit parameters, not variables.
+type PConstCircuit struct {
+	A              frontend.Variable
+	H1, H2, H3, H4 frontend.Variable
+	K1, K2, K3     *big.Int
+}
+
+func (c *PConstCircuit) Define(api frontend.API) error {
+	h1 := abstractor.Call(api, poseidon.Poseidon2{In1: c.A, In2: c.K1})
+	h2 := abstractor.Call(api, poseidon.Poseidon2{In1: c.K2, In2: c.A})
+	h3 := abstractor.Call(api, poseidon.Poseidon1{In: c.K3})
+	h4 := abstractor.Call(api, poseidon.Poseidon2{In1: c.K1, In2: c.K2})
+	api.AssertIsEqual(h1, c.H1)
+	api.AssertIsEqual(h2, c.H2)
+	api.AssertIsEqual(h3, c.H3)
+	api.AssertIsEqual(h4, c.H4)
+	return nil
+}
+
 type KeccakCircuit struct {
 	In   []frontend.Variable
 	Out  [256]frontend.Variable
